@@ -56,6 +56,7 @@ static void* parsec_base_future_get(parsec_base_future_t* future)
             parsec_atomic_rmb();
             return future->tracked_data;
         }
+        PARSEC_VERIF_POINT(PARSEC_VERIF_K_SPIN, &future->status);
     }
     return NULL;
 }
